@@ -816,6 +816,7 @@ func (w *World) Step(o Op, hidx, k int) (tr.M, error) {
 	if o.Op == "Reconfigure" {
 		line["config"] = o.Config
 		line["same"] = sameJSON(o.Config, w.curCfg)
+		line["sameboot"] = sameJSON(o.Config, w.Spec.Config)
 	}
 	var r reply
 	done := make(chan struct{})
